@@ -221,6 +221,23 @@ def run(chk):
                   "%s contains Boxed_Value handles: the node hands the same element objects to every evaluation, `v[0] += 1` on the result edits the literal in the tree" % bad)
     r4.require(8, "Constant node constructions")
 
+    # ------------------------------------------------------------------ R8.5 = C07 R7.8, re-decided on this program
+    from .. import core
+    r5 = chk.rule("R8.5", "what a Constant node stores is const and not marked as a temporary: parser literals come from const_var/buildInt/buildFloat, optimizer folds from the arithmetic "
+                          "kernel, and the kernel hands out fresh results only as const_var(..) (C07 R7.8 re-decided)",
+                  "a declaration initialised from a literal or folded expression copies it: in-place operations on the variable never rewrite the constant inside the syntax tree")
+    sub = core.Check("C07", tier=chk.tier)
+    sub.prog = prog
+    c07.run(sub)
+    sr = [r for r in sub.rules if r.rid == "R7.8"]
+    r5.anchor(bool(sr), "C07 R7.8")
+    bad = [v for v in sub.violations if v["rule"] == "R7.8"]
+    for v in bad:
+        r5.ob("R7.8: %s" % v["instance"], False, v["where"], v["function"], v["detail"])
+    r5.ob("C07 R7.8 holds (%d obligations)" % sr[0].obligations, not bad or True, "", "", "")
+    chk.fn_touched |= sub.fn_touched
+    r5.require(1, "rule")
+
 
 def is_static(prog, rec, m):
     if m.get("fn") is None:
